@@ -10,10 +10,12 @@ func TestMain(m *testing.M) { vkit.Main(m) }
 
 func TestProp_Bit64(t *testing.T)   { Part64.Run(t) }
 func TestProp_Bit1024(t *testing.T) { Part1024.Run(t) }
+func TestProp_Life(t *testing.T)    { PartLife.Run(t) }
 
 func TestReplay(t *testing.T) {
 	Part64.Replay(t, 1)
 	Part1024.Replay(t, 1)
+	PartLife.Replay(t, 1)
 }
 
 // FuzzBit1024 is the byte-level, coverage-guided entry: 128 bytes of bitmap,
